@@ -147,6 +147,19 @@ fn main() {
         h.join().ok();
         return;
     }
+    if args.len() >= 3 && args[1] == "repl-lines" {
+        // lines separated by " ;; "
+        let b = vh::qv::builtins();
+        let mut sess = vh::procsys::ReplSession::new(1, &b, Default::default());
+        sess.sim.set_logging(false);
+        let mut rng = vh::rng::Rng::new(1);
+        for line in args[2].split(" ;; ") {
+            let out = sess.eval(line, Strategy::Eager, &mut rng);
+            println!("> {}\n  {}", line, format!("{:?}", out).chars().take(300).collect::<String>());
+            println!("  vars: {:?}", sess.repl.get_variables());
+        }
+        return;
+    }
     if args.len() >= 3 && args[1] == "ty" {
         let b = vh::qv::builtins();
         match vh::qv::compile(&args[2], &b) { Ok(cp) => println!("{}", vh::qv::show_type(&cp)), Err(e) => println!("compile error: {:?}", e) }
